@@ -69,13 +69,7 @@ func inlinableHelper(pkg *packages.Package, fd *ast.FuncDecl) bool {
 	if fd.Name.Name == "init" || fd.Name.Name == "main" {
 		return false
 	}
-	if fd.Type.Params != nil {
-		for _, f := range fd.Type.Params.List {
-			if _, variadic := f.Type.(*ast.Ellipsis); variadic {
-				return false
-			}
-		}
-	}
+	// a variadic last parameter is bound to a slice literal of the arguments (calls that spread a slice are refused at the site)
 	return true
 }
 
@@ -192,10 +186,18 @@ func Normalise(opt LoadOptions, testIdents map[string]bool, loadFn func(map[stri
 		if len(edits) == 0 {
 			// nothing left to inline: unbox results of new struct types, then
 			// replace locals of new struct types by their fields
-			edits, msgs = unboxRound(pkgs, overlay, &counter)
+			edits, msgs = unrollRound(pkgs, overlay)
 			log = append(log, msgs...)
 			if len(edits) == 0 {
+				edits, msgs = unboxRound(pkgs, overlay, &counter)
+				log = append(log, msgs...)
+			}
+			if len(edits) == 0 {
 				edits, msgs = sraRound(pkgs, overlay)
+				log = append(log, msgs...)
+			}
+			if len(edits) == 0 {
+				edits, msgs = ptrSraRound(pkgs, overlay)
 				log = append(log, msgs...)
 			}
 			if len(edits) == 0 {
@@ -301,6 +303,17 @@ func inlineRound(pkgs []*packages.Package, overlay map[string][]byte, testIdents
 			}
 			for _, d := range f.Decls {
 				fd, ok := d.(*ast.FuncDecl)
+				if gd, isGen := d.(*ast.GenDecl); isGen {
+					// a helper named in a package-level declaration stays
+					ast.Inspect(gd, func(n ast.Node) bool {
+						if id, ok := n.(*ast.Ident); ok {
+							if obj := pkg.TypesInfo.Uses[id]; obj != nil && cand[obj] != nil {
+								blocked[obj] = "used in a package-level declaration"
+							}
+						}
+						return true
+					})
+				}
 				if !ok || fd.Body == nil {
 					continue
 				}
